@@ -24,6 +24,9 @@ def generate(seed, tier):
     S = core.Streams(seed)
     rng = S("gen")
     model, names, params = gen.gen_model(rng, stochastic=False, p=rng.randint(1, 5))
+    if model["processes"] and rng.random() < 0.1:
+        import copy as _copy
+        model["processes"].insert(rng.randint(0, len(model["processes"])), _copy.deepcopy(rng.choice(model["processes"])))
     m = len(model["processes"])
     order = list(range(m))
     if rng.random() < 0.5:
